@@ -9,9 +9,9 @@ SESSION = os.path.join(common.VERIF, "harness", "memsession.py")
 KEYVAL = {"a": 3, "b": 4}
 
 
-def mcfg(name, gen=False, maxops=6, procs=(1, 2), slots=(1, 2), stores=(1,), fix=(True, True, True, True, True), aliased=(), invariants=("ValueCorrect",), props=("HitWhenDue",)):
+def mcfg(name, gen=False, maxops=6, procs=(1, 2), slots=(1, 2), stores=(1,), fix=(True, True, True, True, True), aliased=(), homonyms=(), invariants=("ValueCorrect",), props=("HitWhenDue",)):
     path = os.path.join(common.VERIF, "out", "cfg", "MD_%s.cfg" % name)
-    consts = dict(Procs=set(procs), Slots=set(slots), Vers={1, 2}, Keys={"a", "b"}, Stores=set(stores), MaxOps=maxops, FixD6=fix[0], FixD13=fix[1], FixD5c=fix[2], FixD20=(fix[3] if len(fix) > 3 else True), FixD21=(fix[4] if len(fix) > 4 else True), Aliased=set(aliased), Gen=gen)
+    consts = dict(Procs=set(procs), Slots=set(slots), Vers={1, 2}, Keys={"a", "b"}, Stores=set(stores), MaxOps=maxops, FixD6=fix[0], FixD13=fix[1], FixD5c=fix[2], FixD20=(fix[3] if len(fix) > 3 else True), FixD21=(fix[4] if len(fix) > 4 else True), Aliased=set(aliased), Homonyms=set(homonyms), Gen=gen)
     if gen:
         tlc.write_cfg(path, constants=consts, init="Init", next="Next", constraint="Emit")
     else:
@@ -117,8 +117,10 @@ def body(c):
     r = c.model_check("MemoryDesign[two live processes - documented limit]", "MemoryDesign", mcfg("limit2", maxops=5), must_hold=False, workers=16)
     sens.append("two simultaneously live processes with different versions -> %s (documented limit, not claimed)" % (r.violated,))
     c.model_check("MemoryDesign[one directory under two spellings,6ops]", "MemoryDesign", mcfg("mc6alias", maxops=6, procs=(1,), stores=(1, 2), aliased=(2,)), workers=16)
-    for nm, fx in (("D6_off", (False, True, True)), ("D13_off", (True, False, True)), ("D20_off", (True, True, True, False)), ("D21_off", (True, True, True, True, False))):
-        kw = dict(stores=(1, 2), aliased=(2,)) if nm == "D21_off" else {}
+    c.model_check("MemoryDesign[one spelling, two directories,6ops]", "MemoryDesign", mcfg("mc6homonym", maxops=6, procs=(1,), stores=(1, 2), homonyms=(2,)), workers=16)
+    for nm, fx in (("D6_off", (False, True, True)), ("D13_off", (True, False, True)), ("D20_off", (True, True, True, False)), ("D21_off", (True, True, True, True, False)),
+                   ("D21_homonym_off", (True, True, True, True, False))):
+        kw = dict(stores=(1, 2), aliased=(2,)) if nm == "D21_off" else dict(stores=(1, 2), homonyms=(2,)) if nm == "D21_homonym_off" else {}
         r = c.model_check("MemoryDesign[%s]" % nm, "MemoryDesign", mcfg(nm, maxops=6, fix=fx, procs=(1,), **kw), must_hold=False, workers=16)
         if r.ok: raise tlc.TLCError("MemoryDesign lost its sensitivity to %s" % nm)
         sens.append("%s -> %s" % (nm, r.violated))
